@@ -164,12 +164,16 @@ Theorem C17_rule_bad_period : forall num (o : NumOps num) U K minpos (c : spdc_c
   try_as_spdc_now o U K minpos c = Err EBadPeriod.
 Proof. exact now_rule_bad_period. Qed.
 
-(* never panics -- for ALL configurations and wavelengths -- provided no simplex search fails (a search fails exactly on a NaN
-   cost: known finding F7b); and the only possible panic is that one.  [scale_order]: multiplying both wavelengths by the nm
-   unit factor preserves their order (law of the carrier; true over R and Q, Example C17_ex_entry). *)
+(* never panics -- whatever the wavelengths -- provided the oracle calls THIS configuration makes are defined
+   ([searches_defined_at o K c]: the Snell inverse answers; if the crystal angle is automatic, the signal's external angle at the
+   placeholder crystal angle is defined -- no total internal reflection -- and the angle search succeeds; if the poling period is
+   automatic, the period search succeeds.  A search fails exactly on a NaN cost: known findings F7b, F7f, F7h, where this
+   hypothesis is false and the model, like the implementation, panics: C17_tir_panics_composed below).
+   [scale_order]: multiplying both wavelengths by the nm unit factor preserves their order (law of the carrier; true over R and
+   Q, Example C17_ex_entry). *)
 Theorem C17_no_panic : forall num (o : NumOps num) U K minpos (c : spdc_cfg num),
-  scale_order o -> searches_total K -> is_panic (try_as_spdc_now o U K minpos c) = false.
-Proof. exact now_no_panic. Qed.
+  scale_order o -> searches_defined_at o K c -> is_panic (try_as_spdc_now o U K minpos c) = false.
+Proof. exact now_no_panic_at. Qed.
 
 Theorem C17_panics_only_search : forall num (o : NumOps num) U K minpos (c : spdc_cfg num) s,
   scale_order o -> try_as_spdc_now o U K minpos c = Panic s -> s = SiteNelderMeadUnwrap.
@@ -178,30 +182,54 @@ Proof. exact now_panics_only_search. Qed.
 (* the property's first sentence: either Ok with no non-finite field, or Err (under the oracle contracts: searches succeed,
    idler angle / waist position defined, delta k of the unpoled crystal not exactly 0) *)
 Theorem C17_ok_finite_or_err_partial : forall num (o : NumOps num) U K minpos (c : spdc_cfg num),
-  scale_order o -> searches_total K -> geometry_defined K ->
+  scale_order o -> searches_defined_at o K c -> geometry_defined_at o K minpos cfg_rejects_bad_period c ->
   (forall signal, signal_step o K c = Ok signal -> neqb o (o_dkz0 K signal (cfg_pump o c) (cfg_cs0 o c)) (n0 o) = false) ->
   (exists s, try_as_spdc_now o U K minpos c = Ok (s, [])) \/ (exists e, try_as_spdc_now o U K minpos c = Err e).
-Proof. exact now_ok_finite_or_err. Qed.
+Proof. exact now_ok_finite_or_err_at. Qed.
 
 (* =====================================================================================================================
    COMPOSED with the generated / proved models of the kernels (C03 optimum idler, C04 auto period / auto angle / Nelder-Mead):
    oracles_of_model index_of snell_inv sd_theta sd_period is an INSTANCE of the oracle record over the reals, for any index
    function (Proofs/Compose_index.crystal_index for built-in crystals: C17_no_panic_composed_builtin), any Snell inverse and any
-   termination tests.  Over the reals both simplex searches are total and nm-unit scaling preserves order, so the never-panics
-   theorem has NO oracle hypothesis left except totality of the Snell inverse (property C13).
-   What remains assumed: binary64 vs reals (a NaN cost makes argmin fail: known finding F7b), the Snell inverse. *)
+   termination tests.  nm-unit scaling preserves order over the reals.  Every partial floating-point operation of the kernels
+   (asin beyond [-1, 1], sqrt of a negative number, division by 0) carries its definedness guard in the composed oracles, so the
+   never-panics theorem carries, PER CONFIGURATION, the three hypotheses that the known findings violate:
+     no_total_internal_reflection  |n sin(theta_s)| <= 1 at the placeholder crystal angle, when the crystal angle is automatic (F7b, F7f)
+     angle_search_defined          every candidate angle the search evaluates has a defined cost (Snell inverse + unpoled idler)
+     period_search_defined_at      every candidate period the search evaluates has a defined cost (F7h)
+   plus totality of the Snell inverse (property C13).  The first hypothesis cannot be dropped: C17_tir_panics_composed. *)
 Theorem C17_no_panic_composed : forall index_of snell_inv sd_theta sd_period U minpos (c : spdc_cfg R),
   (forall b e cs, snell_inv b e cs <> None) ->
+  no_total_internal_reflection index_of snell_inv sd_theta sd_period c ->
+  angle_search_defined index_of snell_inv sd_theta sd_period c ->
+  period_search_defined_at index_of snell_inv sd_theta sd_period c ->
   is_panic (try_as_spdc_now R_ops U (oracles_of_model index_of snell_inv sd_theta sd_period) minpos c) = false.
 Proof. exact no_panic_composed. Qed.
 
+Theorem C17_tir_panics_composed : forall index_of snell_inv sd_theta sd_period U minpos (c : spdc_cfg R) signal,
+  cfg_le R_ops c = false -> signal_step R_ops (oracles_of_model index_of snell_inv sd_theta sd_period) c = Ok signal ->
+  is_auto (cc_theta_deg (c_crystal c)) = true -> c_pp c = PCOff ->
+  snell_ext_defined index_of signal (cfg_cs0 R_ops c) = false ->
+  try_as_spdc_now R_ops U (oracles_of_model index_of snell_inv sd_theta sd_period) minpos c = Panic SiteNelderMeadUnwrap.
+Proof. exact tir_panics_composed. Qed.
+
 Theorem C17_no_panic_composed_builtin : forall snell_inv sd_theta sd_period U minpos (c : spdc_cfg R),
   (forall b e cs, snell_inv b e cs <> None) ->
+  no_total_internal_reflection builtin_index_of snell_inv sd_theta sd_period c ->
+  angle_search_defined builtin_index_of snell_inv sd_theta sd_period c ->
+  period_search_defined_at builtin_index_of snell_inv sd_theta sd_period c ->
   is_panic (try_as_spdc_now R_ops U (oracles_of_model builtin_index_of snell_inv sd_theta sd_period) minpos c) = false.
 Proof. exact no_panic_builtin. Qed.
 
+(* Ok with nothing non-finite, or Err: additionally the index along z is never 0 and the emission angle of this configuration's
+   optimum idler is defined (arg > 0, |val| <= 1) *)
 Theorem C17_ok_finite_or_err_composed_partial : forall index_of snell_inv sd_theta sd_period U minpos (c : spdc_cfg R),
   (forall b e cs, snell_inv b e cs <> None) ->
+  no_total_internal_reflection index_of snell_inv sd_theta sd_period c ->
+  angle_search_defined index_of snell_inv sd_theta sd_period c ->
+  period_search_defined_at index_of snell_inv sd_theta sd_period c ->
+  (forall cs l pol, index_of cs l Vec3.ez pol <> 0%R) ->
+  idler_defined_at index_of snell_inv sd_theta sd_period minpos c ->
   (forall signal, signal_step R_ops (oracles_of_model index_of snell_inv sd_theta sd_period) c = Ok signal ->
      dkz_c index_of signal (cfg_pump R_ops c) (cfg_cs0 R_ops c) MI.PPOff <> 0%R) ->
   (exists s, try_as_spdc_now R_ops U (oracles_of_model index_of snell_inv sd_theta sd_period) minpos c = Ok (s, [])) \/
@@ -211,7 +239,7 @@ Proof. exact ok_finite_or_err_composed. Qed.
 (* the model's IdlerBeam::try_new_optimum at the composed instance IS C03's generated optimum_idler: refused exactly when
    lambda_s <= lambda_p, otherwise the same beam *)
 Theorem C17_idler_is_C03 : forall index_of snell_inv sd_theta sd_period s p cs pp,
-  beam_wf s -> (0 < b_wavelength p)%R ->
+  beam_wf s -> (0 < b_wavelength p)%R -> idler_defined index_of s p cs (ipp pp) = true ->
   match MI.optimum_idler (index_of cs) (ipm (cs_pm cs)) (cs_counter cs) (ib s) (ipump p) (ipp pp) with
   | None => (b_wavelength s <= b_wavelength p)%R /\
             idler_optimum R_ops (oracles_of_model index_of snell_inv sd_theta sd_period) s p cs pp = Err ESignalLePump
@@ -222,7 +250,7 @@ Proof. exact idler_composed. Qed.
 
 (* the model's optimum_poling_period at the composed instance IS C04's (early exit, seed, sign, bounds, final test) *)
 Theorem C17_period_is_C04 : forall index_of snell_inv sd_theta sd_period s p cs,
-  signal_le_pump R_ops s p = false ->
+  signal_le_pump R_ops s p = false -> period_search_defined index_of sd_period s p cs = true ->
   match MA.optimum_poling_period (dkz_c index_of s p cs) MA.real_ops sd_period (cs_length cs) with
   | MA.AutoInfinite => optimum_poling_period R_ops (oracles_of_model index_of snell_inv sd_theta sd_period) GA.opp_min_period s p cs = Ok (inr tt)
   | MA.AutoErr => optimum_poling_period R_ops (oracles_of_model index_of snell_inv sd_theta sd_period) GA.opp_min_period s p cs = Err EImpossiblePeriod
@@ -281,6 +309,7 @@ Example C17_ex_snell_total : exists si : beam R -> R -> crystal_setup R -> optio
 Proof. exact snell_total_example. Qed.
 
 Print Assumptions C17_no_panic_composed.
+Print Assumptions C17_tir_panics_composed.
 Print Assumptions C17_no_panic_composed_builtin.
 Print Assumptions C17_ok_finite_or_err_composed_partial.
 Print Assumptions C17_idler_is_C03.
